@@ -385,6 +385,16 @@ def F22():
         shutil.rmtree(d)
 
 
+def F23():
+    e = DcmMetaExtension.make_empty((2, 2, 2), np.eye(4), None, 2)
+    try:
+        e.get_multiplicity(('time', 'samples'))
+    except ValueError:
+        return None
+    except TypeError:
+        return "get_multiplicity(('time','samples')) on a 3-D extension raises TypeError instead of ValueError"
+
+
 # ---- open findings (recorded in known-findings.txt, not repaired): these report PRESENT on the current tree
 def N1():
     e = DcmMetaExtension.make_empty((2, 2, 2, 1), np.eye(4), None, 2)
@@ -485,7 +495,7 @@ def deepcopy_ext(e):
 
 
 OPEN = ['N1', 'N2', 'N3', 'N4', 'N6', 'N8', 'N9', 'N11']
-ALL = ['F22', 'F21', 'F20', 'F19', 'F18', 'F17', 'F16', 'F15', 'F1', 'F2', 'F3', 'F4', 'F5', 'F6', 'F7', 'F8', 'F9', 'F10', 'F11', 'F12', 'F13', 'F14']
+ALL = ['F23', 'F22', 'F21', 'F20', 'F19', 'F18', 'F17', 'F16', 'F15', 'F1', 'F2', 'F3', 'F4', 'F5', 'F6', 'F7', 'F8', 'F9', 'F10', 'F11', 'F12', 'F13', 'F14']
 
 if __name__ == '__main__':
     which = sys.argv[1:] or ALL
